@@ -144,6 +144,8 @@ class Gen:
         r = rng.random()
         if cands and r < 0.4:
             n = rng.choice(cands)
+            if depth <= 1:
+                self.tupled.add(n)      # a bare reference as a step / binding source / argument narrows n
             return n, self.vars[n][1]
         if depth < 2 and r < 0.5:
             # a field of a tuple variable
@@ -155,6 +157,7 @@ class Gen:
                             hits.append((n, i, vt, vv))
             if hits:
                 n, i, vt, vv = rng.choice(hits)
+                self.tupled.add(n)
                 return "%s.%s" % (n, vt[2][i] if vt[2][i] else str(i)), vv[3][i]
         if t == "int":
             if depth < 2 and r < 0.75:
@@ -381,6 +384,7 @@ class Gen:
         ints = self.vars_of(lambda t: t == "int")
         if ints and rng.random() < 0.6:
             n = rng.choice(ints)
+            self.tupled.add(n)
             src = "%s =%d" % (n, self.vars[n][1][1] + rng.choice([1, -1, 1000]))
         else:
             src = rng.choice(["[]", "5 =6", "0xaa =0xab", "P[x: 1] =P[x: 2]"])
